@@ -315,6 +315,30 @@ def doInvOff (l : Line) : Option String := do
   | .error .notContained => some "err:not-contained"
   | .error .shiftedUnchanged => some "err:shifted-unchanged"
 
+/-- `offsptol lo= hi= n= bl= br= rlo= rhi= rn= rbl= rbr= rtol= atol=`: `_offset_from_spaces`
+for one axis AS CODED (`np.around`, `np.isclose` with the given tolerances). -/
+def doOffSpTol (l : Line) : Option String := do
+  let lo ← l.rat? "lo"
+  let hi ← l.rat? "hi"
+  let n ← l.nat? "n"
+  let bl ← l.bool? "bl"
+  let br ← l.bool? "br"
+  let rlo ← l.rat? "rlo"
+  let rhi ← l.rat? "rhi"
+  let rn ← l.nat? "rn"
+  let rbl ← l.bool? "rbl"
+  let rbr ← l.bool? "rbr"
+  let rtol ← l.rat? "rtol"
+  let atol ← l.rat? "atol"
+  if n = 0 || rn = 0 then none
+  let dom : Axis Rat := ⟨lo, hi, n, bl, br⟩
+  if dom.cell = 0 then none
+  match offsetFromAxesTol rtol atol dom ⟨rlo, rhi, rn, rbl, rbr⟩ with
+  | .ok k => some s!"ok off={k}"
+  | .error .notMultiple => some "err:shift-not-multiple"
+  | .error .notContained => some "err:not-contained"
+  | .error .shiftedUnchanged => some "err:shifted-unchanged"
+
 def handle (l : Line) : Option String :=
   match l.op with
   | "resize" => doResize l
@@ -330,6 +354,7 @@ def handle (l : Line) : Option String :=
   | "opderiv" => doOpDeriv l
   | "opadjraw" => doOpAdjRaw l
   | "invoff" => doInvOff l
+  | "offsptol" => doOffSpTol l
   | _ => none
 
 def main : IO Unit := driverLoop handle
